@@ -37,6 +37,7 @@ func (p *P0x8800) Parse(jtMsg *jt808.JTMessage) error {
 	if len(body) != 5+2*int(p.AgainPackageCount) {
 		return protocol.ErrBodyLengthInconsistency
 	}
+	p.AgainPackageList = nil // 复用对象时不保留上一次解析的列表
 	for i := 0; i < int(p.AgainPackageCount); i++ {
 		id := binary.BigEndian.Uint16(body[5+(2*i) : 5+(2*i)+2])
 		p.AgainPackageList = append(p.AgainPackageList, id)
